@@ -176,7 +176,7 @@ class LArrElem:
         for k in range(len(self.arr.e)):
             self.arr.e[k].v = z3.If(self.idx == k, v, self.arr.e[k].v)
 
-VARIANTS = {'Option': ['None', 'Some'], 'Result': ['Ok', 'Err'], 'Poll': ['Ready', 'Pending'], 'ControlFlow': ['Continue', 'Break']}
+VARIANTS = {'SocketAddr': ['V4', 'V6'], 'Option': ['None', 'Some'], 'Result': ['Ok', 'Err'], 'Poll': ['Ready', 'Pending'], 'ControlFlow': ['Continue', 'Break']}
 
 def clone_val(v):
     if isinstance(v, Struct):
@@ -269,10 +269,19 @@ def parse_term(t):
     return ('?',)
 _CCACHE = {}
 _CONSTFN = {}
+class _AutoCells(list):
+    def __getitem__(self, i):
+        while len(self) <= i: self.append(Cell(None))
+        return list.__getitem__(self, i)
+class SavedVars:
+    """the locals a coroutine keeps across one suspend point (`((*_x) as variant#N).k` in the state-transformed MIR)"""
+    def __init__(self): self.f = _AutoCells()
 class CoroutineVal:
-    """an `async` block / `async fn` body value: captured variables + resume state (0 = unresumed, 1 = returned, 2 = panicked).
-    Only coroutines that run to completion in one resume (no `.await` reached) are executed; a suspend point is Unknown."""
-    def __init__(self, ty, fields): self.ty = ty; self.f = [Cell(x) for x in fields]; self.state = 0
+    """an `async` block / `async fn` body value: captured variables + resume state (0 = unresumed, 1 = returned, 2 = panicked,
+    3.. = suspended at an `.await`) + the locals saved across each suspend point. The body that is executed is the compiler's
+    state-transformed MIR of the real block. Its drop glue is a compiler shim that the dump does not contain: dropping a
+    coroutine drops nothing in this engine."""
+    def __init__(self, ty, fields): self.ty = ty; self.f = [Cell(x) for x in fields]; self.state = 0; self.saved = {}
     def loc(self): return self.ty.split('@', 1)[1].split(' (#')[0].rstrip('}')
 
 
@@ -437,11 +446,14 @@ class Exec:
                 lv = v.lv
             elif p[0] == 'field':
                 if hasattr(v, 'is_box'): lv = LCell(Cell(v))
-                elif isinstance(v, (Struct, Enum, ClosureVal, CoroutineVal)): lv = LCell(v.f[p[1]])
+                elif isinstance(v, (Struct, Enum, ClosureVal, CoroutineVal, SavedVars)): lv = LCell(v.f[p[1]])
                 elif isinstance(v, Ref) and p[1] == 0: lv = LCell(Cell(v))      # Pin<&mut T>.0 : the Pin constructors are identity models
                 else: raise Unknown('field of %r in %s' % (v, s))
             elif p[0] == 'downcast':
-                if not isinstance(v, Enum) or v.variant != p[1]: raise Unknown('bad downcast %s' % s)
+                if isinstance(v, CoroutineVal) and p[1].startswith('variant#'):
+                    lv = LCell(Cell(v.saved.setdefault(int(p[1][8:]), SavedVars())))
+                elif hasattr(v, 'model_downcast'): lv = LCell(Cell(v.model_downcast(p[1])))
+                elif not isinstance(v, Enum) or v.variant != p[1]: raise Unknown('bad downcast %s' % s)
             elif p[0] == 'index':
                 idx = self.operand(fr, p[1]) if not p[1].startswith('_') else fr['locals'][int(p[1][1:])].v
                 if z3.is_expr(idx):
@@ -500,6 +512,7 @@ class Exec:
         if t == 'discr':
             v = self.place(fr, k[1]).get()
             if isinstance(v, CoroutineVal): return BV(v.state, 32)
+            if hasattr(v, 'model_discriminant'): return BV(v.model_discriminant(), 64)      # a model object standing for an enum value
             if not isinstance(v, Enum): raise Unknown('discriminant of %r' % v)
             return BV(_variants(self.enums, v.name, v.variant).index(v.variant), 64)
         s = s.strip()
@@ -526,7 +539,8 @@ class Exec:
             if body.startswith('{'):
                 for part in split_top(body[1:-1].strip()):
                     k, v = part.split(': ', 1); fields.append(self.operand(fr, v))
-            return CoroutineVal(s[:j], fields)
+            co = CoroutineVal(s[:j], fields); co.maker = fr['fn'].name
+            return co
         if s.startswith('{closure@'):
             j = s.index('}') + 1
             cv = ClosureVal(s[:j]); cv.f = []
